@@ -976,6 +976,75 @@ Proof.
   constructor; [apply typed_rt_type; exact Hv | exact IHT].
 Qed.
 
+(* MAP over a non-empty map (control.py: items.append((elt.items[0], new_elt)); MapType.from_items(items)):
+   the rebuilt map has the SAME keys, the key type of the source and the value type of the body's results *)
+Lemma py_rekey_keys l : forall ys, length ys = length l -> map py_key (py_rekey l ys) = map py_key l.
+Proof.
+  induction l as [|x l IH]; intros [|y ys] L; simpl in *; try discriminate; [reflexivity|].
+  injection L as L. rewrite (IH _ L). reflexivity.
+Qed.
+
+Lemma map_entry_typed kt vt x : (match x with PPair k v => pv_typedb k kt && pv_typedb v vt | _ => false end) = true ->
+  exists k v, x = PPair k v /\ typed k kt /\ typed v vt.
+Proof. destruct x; try discriminate. intros H. apply andb_prop in H as [H1 H2]. eauto. Qed.
+
+Lemma map_map_types kt vt b l ys :
+  typed (PMap kt vt l) (TMap kt vt) -> Forall (fun y => typed y b) ys -> length ys = length l -> l <> [] ->
+  map_from_items (py_rekey l ys) = Some (PMap kt b (py_rekey l ys)) /\
+  typed (PMap kt b (py_rekey l ys)) (TMap kt b) /\
+  map py_key (py_rekey l ys) = map py_key l.
+Proof.
+  intros Ht Hys L Hne. unfold typed in Ht. simpl in Ht.
+  apply andb_prop in Ht as [Ht Hsorted]. apply andb_prop in Ht as [Ht Hall]. clear Ht.
+  pose proof (py_rekey_keys l ys L) as Hk.
+  assert (Hent : forall l ys, length ys = length l ->
+            forallb (fun x => match x with PPair k v => pv_typedb k kt && pv_typedb v vt | _ => false end) l = true ->
+            Forall (fun y => typed y b) ys ->
+            forallb (fun x => match x with PPair k v => pv_typedb k kt && pv_typedb v b | _ => false end) (py_rekey l ys) = true /\
+            forallb (fun x => match x with PPair k' v' => ty_eqb kt (rt_type k') && ty_eqb b (rt_type v') | _ => false end) (py_rekey l ys) = true).
+  { clear. induction l as [|x l IH]; intros [|y ys] L Hall Hys; simpl in *; try discriminate; [auto|].
+    injection L as L. apply andb_prop in Hall as [Hx Hall]. inversion Hys as [|? ? Hy Hys']; subst.
+    destruct (map_entry_typed kt vt x Hx) as (k & v & -> & Hk & Hv). simpl.
+    destruct (IH ys L Hall Hys') as [I1 I2]. rewrite I1, I2. unfold typed in *. rewrite Hk, Hy.
+    rewrite (typed_rt_type k kt Hk), (typed_rt_type y b Hy), !ty_eqb_refl. auto. }
+  destruct (Hent l ys L Hall Hys) as [E1 E2].
+  destruct l as [|x l]; [congruence|]. destruct ys as [|y ys]; [discriminate|].
+  simpl in Hall. apply andb_prop in Hall as [Hx Hall]. destruct (map_entry_typed kt vt x Hx) as (k & v & -> & Hk0 & Hv0).
+  inversion Hys as [|? ? Hy Hys']; subst.
+  change (py_rekey (PPair k v :: l) (y :: ys)) with (PPair (py_key (PPair k v)) y :: py_rekey l ys) in *.
+  change (py_key (PPair k v)) with k in *.
+  remember (PPair k y :: py_rekey l ys) as ents eqn:Eents.
+  split; [|split; [|exact Hk]].
+  - unfold map_from_items. rewrite Eents. rewrite <- Eents.
+    rewrite (typed_rt_type k kt Hk0), (typed_rt_type y b Hy).
+    rewrite Eents in E2. simpl in E2. apply andb_prop in E2 as [_ E2]. rewrite E2. rewrite Hk, Hsorted. reflexivity.
+  - unfold typed. cbn [pv_typedb]. rewrite !ty_eqb_refl, E1, Hk, Hsorted. reflexivity.
+Qed.
+
+(* EXEC of a first-order lambda whose body lies in the proved fragment: pytezos (fresh MichelsonStack holding the
+   argument, body, pop the result, class checks) agrees with the reference rule *)
+Lemma c01_exec fuel a b body param rest hid :
+  in_fragment body -> typecheck_nr body [a] = Some (Typed [b]) -> typed param a ->
+  erase_outcome (py_eval e (S fuel) I_EXEC (mkst hid (param :: PLam a b body :: rest)))
+  = ref_eval e (S fuel) I_EXEC (map erase (param :: PLam a b body :: rest)).
+Proof.
+  intros _ Htc Hp. cbn [py_eval ref_eval map erase].
+  change (param :: PLam a b body :: rest) with ([param; PLam a b body] ++ rest).
+  rewrite (pop_mkst hid [param; PLam a b body] rest 2 eq_refl).
+  rewrite (typed_rt_type param a Hp), ty_eqb_refl.
+  assert (Hs : styped [param] [a]) by (constructor; [assumption | constructor]).
+  pose proof (simulation fuel body [a] (Typed [b]) [] [param] Htc Hs) as H.
+  change (mkstack [param] 0) with (mkst [] [param]). change (map erase [param]) with [erase param] in H.
+  destruct (ref_eval e fuel body [erase param]) as [r|v| | |]; simpl in H.
+  - destruct H as (vis' & -> & <- & T). inversion T as [|res ? vs ? Hres Tr]; subst. inversion Tr; subst.
+    rewrite pop1_mkst. rewrite (typed_rt_type res b Hres), ty_eqb_refl. simpl. rewrite push_mkst. simpl.
+    rewrite view_mkst. reflexivity.
+  - destruct H as (pv & -> & <-). reflexivity.
+  - rewrite H. reflexivity.
+  - rewrite H. reflexivity.
+  - contradiction.
+Qed.
+
 (* one cell of a REPL session: Interpreter.execute agrees with the reference, keeps the `protected` counter at 0,
    and leaves the session stack untouched when the cell fails *)
 Lemma c01_execute fuel code st R inputs :
